@@ -36,6 +36,10 @@ def gen_case(rng, exhaustive_dirs=None):
         if numeric:
             targets.append((f'sum({rng.choice(numeric)})', 's'))
         case['gcol'] = gcol
+        case['hidden_key'] = rng.random() < 0.4      # grouping key not selected: visible rows of different groups may coincide
+        if case['hidden_key']:
+            targets = targets[1:]
+    case.setdefault('hidden_key', False)
     case['targets'] = targets
     nk = rng.randint(1, 4)
     keys = []
@@ -153,14 +157,18 @@ def model_expr(case):
         targets = [f'(ECol {idx[e]}%nat)' for e, _ in case['targets']]
     else:
         g = idx[case['gcol']]
-        targets = [f'(ECol {g}%nat)', '(EAgg 0%nat)']
+        hidden = case.get('hidden_key', False)
+        targets = ([] if hidden else [f'(ECol {g}%nat)']) + ['(EAgg 0%nat)']
         aggs = ['{| afun := ACountStar; aarg := EConst VNull |}']
-        for e, a in case['targets'][2:]:
+        for e, a in case['targets'][(1 if hidden else 2):]:
             c = idx[e[4:-1]]
             targets.append(f'(EAgg {len(aggs)}%nat)')
             aggs.append('{| afun := ASum (VInt 0); aarg := ECol %d%%nat |}' % c)
         group = [0]
     nvis = len(targets)
+    if case['agg'] and case.get('hidden_key', False):
+        group = [len(targets)]
+        targets.append(f'(ECol {idx[case["gcol"]]}%nat)')
     extra = {}
     spec = []
     for k in case['keys']:
